@@ -44,10 +44,10 @@ Section Solver.
     ((if r0 <=? n0 then None else Some r0), None).
 
   (** solve_along_surface(half_b, c): a ~ 0, not on the surface.
-      [strict = false] is the code as it stands (`result[0] < 0` drops only
-      negative values, so a start point exactly on the surface yields the
-      distance 0); [strict = true] is the repaired comparison `<= 0` used by
-      every other branch. *)
+      [strict = true] is the code as it stands since commit 8462ce5 (`<= 0`,
+      like every other branch); [strict = false] is the comparison before the
+      repair (`result[0] < 0` dropped only negative values, so a start point
+      exactly on the surface yielded the distance 0). *)
   Definition solve_along_gen (strict : bool) (half_b c : T) : isect2 :=
     if min_a <? nabs half_b then
       let r0 := (- c) / (n2 * half_b) in
@@ -62,8 +62,8 @@ Section Solver.
     else if negb on then solve_along_gen strict half_b c
     else (None, None).
 
-  (** which variant the code currently is (flip when the repair is committed) *)
-  Definition along_strict_as_coded : bool := false.
+  (** which variant the code currently is *)
+  Definition along_strict_as_coded : bool := true.
   Definition solve_along := solve_along_gen along_strict_as_coded.
   Definition solve_general := solve_general_gen along_strict_as_coded.
 
